@@ -7,7 +7,7 @@
    every fault pattern ([OFlush shmok qfull], [OClose qfull]), every schedule of writers, the
    receiving event loop and the send loop (one shared access per step). *)
 From Coq Require Import List ZArith Lia Bool Arith.
-From Shm Require Import Gen.Consts Model.Wakeup Model.Mux Proofs.MuxProofs Proofs.MuxOrderProofs.
+From Shm Require Import Gen.Consts Model.Wakeup Model.Mux Model.MuxCallback Proofs.MuxProofs Proofs.MuxOrderProofs.
 Import ListNotations.
 Open Scope nat_scope.
 
@@ -29,63 +29,56 @@ Theorem C07_transport_fifo : forall progs sched,
 Proof. exact transport_fifo. Qed.
 Print Assumptions C07_transport_fifo.
 
-(* ORDER, full statement: for every stream what the reader is offered is a prefix of what the writer
-   handed over, in that order, and the end mark comes after everything the writer sent.
-   FALSE of the faithful model. *)
+(* ORDER (holds, full strength): for every schedule, any number of streams and every pattern of shared-memory
+   exhaustion and queue-full, what the reader of a stream is offered is a prefix of what the writer handed
+   over, in that order, and the end mark comes after everything the writer sent — also for streams that
+   switch from the queue to the socket fallback in mid-flight, and while other writers sit between
+   markWorking and the write of their polling event.
+   (History: refuted on the original code by two races — the close element overtaking fallback data, repaired
+   by c91430a; a fallback / close event overtaking data whose wake-up was published but not yet written,
+   repaired by emptying the queue before a socket item is handed to its stream.  Their witness schedules
+   are the regression examples below.) *)
 Definition C07_order_full : Prop :=
   forall progs sched s, ordered s (mrun sched (minit progs)) = true.
 
-(* witness (b): markWorking is published before the polling event is written; a fallback event of another
-   writer slips in between and its stream is reordered *)
-Theorem C07_refuted_fallback_overtakes_unpublished_wakeup :
-  let st := mrun wit_b_sched (minit wit_b_progs) in
-  seen 1 st = [DData 1; DData 0] /\ sent 1 st = [DData 0; DData 1] /\ ordered 1 st = false.
-Proof. exact wit_b. Qed.
-Print Assumptions C07_refuted_fallback_overtakes_unpublished_wakeup.
+Theorem C07_order : C07_order_full.
+Proof. exact order_holds. Qed.
+Print Assumptions C07_order.
 
-(* inside the same window the end mark of a stream that switched transport is overtaken as well *)
-Theorem C07_refuted_end_mark_inside_the_same_window :
-  let st := mrun wit_e_sched (minit wit_e_progs) in
-  seen 1 st = [DData 1; DEnd; DData 0] /\ sent 1 st = [DData 0; DData 1; DEnd] /\ ordered 1 st = false.
-Proof. exact wit_e. Qed.
-Print Assumptions C07_refuted_end_mark_inside_the_same_window.
-
-Theorem C07_refuted : ~ C07_order_full.
-Proof. exact order_refuted. Qed.
-Print Assumptions C07_refuted.
-
-(* ORDER, partial — the strongest form, for ALL streams including those that switch from the queue to the
-   socket, and for all fault patterns: in every run that never hands an item to the socket path
-   (writeFallback / close through the socket) while a won markWorking has not yet produced its polling
-   event, every stream is delivered in order with its end mark last.  The hypothesis is exactly the absence
-   of the window of the known defect C07:fallback-overtakes-unpublished-wakeup; the former defect
-   C07:close-overtakes-fallback-data (close element through the queue while the stream's data is on the
-   socket) is gone: with the repaired close() its witness history satisfies this hypothesis and is
-   delivered in order (C07_regression_close_follows_fallback_data below). *)
-Theorem C07_partial_no_unpublished_wakeup_window : forall progs sched,
-  no_window sched (minit progs) = true ->
-  forall s, ordered s (mrun sched (minit progs)) = true.
-Proof. exact order_without_window. Qed.
-Print Assumptions C07_partial_no_unpublished_wakeup_window.
-
-(* ORDER, partial: for every schedule and fault pattern in which all items of stream s (data and
-   close) travel through ONE transport v — only the queue, or only the socket (fallback from the first
-   message, closed through the socket) — the stream is delivered in order and the end mark is last.
-   The missing piece is exactly the hypothesis: a stream that switches transport. *)
-Theorem C07_partial_single_transport : forall progs sched s v,
-  let st := mrun sched (minit progs) in
-  (forall x w, In (x, w) (flog st) -> fst x = s -> w = v) ->
-  ordered s st = true.
-Proof. exact single_transport_ordered. Qed.
-Print Assumptions C07_partial_single_transport.
-
-(* regression of the repaired defect (a): m0 through the queue, m1 through the socket, close — now through
-   the socket behind m1; the history contains no window and is delivered in order *)
+(* regression: the former witness schedules, now delivered in order *)
 Example C07_regression_close_follows_fallback_data :
   let st := mrun wit_a_sched (minit wit_a_progs) in
-  no_window wit_a_sched (minit wit_a_progs) = true /\
-  seen 0 st = [DData 0; DData 1; DEnd] /\ map snd (flog st) = [VQ; VS; VS] /\ ordered 0 st = true.
-Proof. vm_compute. repeat split. Qed.
+  seen 0 st = [DData 0; DData 1; DEnd] /\ sent 0 st = [DData 0; DData 1; DEnd] /\ ordered 0 st = true /\
+  map snd (flog st) = [VQ; VS; VS].
+Proof. exact reg_a. Qed.
+
+Example C07_regression_unpublished_wakeup :
+  (let st := mrun wit_b_paused (minit wit_b_progs) in
+   map mpc_ (mprods st) = [MWr; MIdle] /\ seen 1 st = [DData 0; DData 1] /\ seen 0 st = [DData 0]) /\
+  (let st := mrun wit_b_sched (minit wit_b_progs) in
+   seen 1 st = [DData 0; DData 1] /\ sent 1 st = [DData 0; DData 1] /\ ordered 1 st = true /\ ordered 0 st = true).
+Proof. exact reg_b. Qed.
+
+Example C07_regression_end_mark_inside_the_window :
+  let st := mrun wit_e_sched (minit wit_e_progs) in
+  seen 1 st = [DData 0; DData 1; DEnd] /\ sent 1 st = [DData 0; DData 1; DEnd] /\ ordered 1 st = true.
+Proof. exact reg_e. Qed.
+
+(* END OF STREAM IN CALLBACK MODE (the only clause of C07 that is still false; Model/MuxCallback.v):
+   "OnRemoteClose only after every byte that arrived before the peer's close was offered to OnData".
+   Known finding C07:callback-mode-data-before-peer-close-never-offered: the callback goroutine tests IsOpen()
+   and a message that arrived together with the close is never offered. *)
+Definition C07_callback_end_full : Prop := forall l, end_after_data (crun l) = true.
+
+Theorem C07_refuted_callback_mode_end_before_data :
+  let s := crun wit_c in
+  ccalls s = [CRemoteClose] /\ carrived s = [7] /\ crbuf s = [7] /\ cg s = GNone /\ end_after_data s = false.
+Proof. exact wit_c_run. Qed.
+Print Assumptions C07_refuted_callback_mode_end_before_data.
+
+Theorem C07_refuted_callback_mode : ~ C07_callback_end_full.
+Proof. exact callback_end_refuted. Qed.
+Print Assumptions C07_refuted_callback_mode.
 
 (* non-vacuity: two streams, stream 0 only through the queue, stream 1 only through the socket,
    interleaved; both satisfy the hypothesis of the partial theorem and are fully delivered *)
